@@ -247,3 +247,31 @@ Proof.
   - intros p _. exact I.
   - intros ls E. discriminate.
 Qed.
+
+(* ---------- repeated labels in the OLD span ----------
+   list / tuple / range old spans: old_span_ok holds with repeated labels too (span_ok is True, the position is the first occurrence),
+   so the theorems determine the result; a NumPy-array old span with a repeated label makes the fallback lookup refuse (several
+   matches) and the whole call fails with KeyError as soon as that label is asked for — a documented exclusion (NoDup in span_ok). *)
+Definition rx_dup_list : cst := mkC (SList [LInt 1; LInt 2; LInt 1]) 0 [("F", mkSeries DFloat 1 [CF (FNum 2); CF (FNum 4); CF (FNum 6)])] [] false.
+Example rx_dup_list_old_span_ok : old_span_ok no_pandas no_contains (c_span rx_dup_list) [LInt 1; LInt 2; LInt 3].
+Proof. apply old_span_ok_intro; [exact I | intros p _; exact I | intros ls E; discriminate]. Qed.
+Example rx_dup_list_first_occurrence :
+  option_map (fun s => map (fun kv => s_data (snd kv)) (c_vars s))
+             (match reindex_M no_pandas no_contains cast_tbl rx_dup_list (SList [LInt 1; LInt 2; LInt 3]) 9 PNone None [] 100 with Ret s => Some s | Raise _ => None end)
+  = Some [[CF (FNum 2); CF (FNum 4); CF FNan]].
+Proof. vm_compute. reflexivity. Qed.
+Example rx_dup_arr_old_span_KeyError :
+  reindex_M no_pandas no_contains cast_tbl (mkC (SArr [LInt 1; LInt 2; LInt 1]) 0 [("F", mkSeries DFloat 1 [CF (FNum 2); CF (FNum 4); CF (FNum 6)])] [] false)
+            (SList [LInt 1; LInt 2]) 9 PNone None [] 100 = Raise KeyError
+  /\ (* ... but not when only unrepeated labels are asked for *)
+  option_map (fun s => map (fun kv => s_data (snd kv)) (c_vars s))
+             (match reindex_M no_pandas no_contains cast_tbl (mkC (SArr [LInt 1; LInt 2; LInt 1]) 0 [("F", mkSeries DFloat 1 [CF (FNum 2); CF (FNum 4); CF (FNum 6)])] [] false)
+                              (SList [LInt 2; LInt 3]) 9 PNone None [] 100 with Ret s => Some s | Raise _ => None end)
+  = Some [[CF (FNum 4); CF FNan]].
+Proof. split; vm_compute; reflexivity. Qed.
+(* the dtype defaults of the conversion table that the correspondence check validates (NaN for float64 is NumPy's conversion of None) *)
+Example rx_cast_tbl_defaults :
+  forall n, fill_cell cast_tbl (S n) DFloat PNone = Ret (CF FNan) /\ fill_cell cast_tbl n DInt PNone = Ret (CI 0)
+            /\ fill_cell cast_tbl n DBool PNone = Ret (CB false) /\ fill_cell cast_tbl n (DStr 2) PNone = Ret (CS "")
+            /\ fill_cell cast_tbl n DObj PNone = Ret (CV PNone).
+Proof. intros n. repeat split. Qed.
